@@ -45,6 +45,8 @@ def jobs(tier):
         for sig in ([[(0, 0), (1, 0)], [(1, 1), (0, 0), (2, 0)]] if D > 1 else [[(0, 0), (0, 1)]]):
             for batched in [False, True]:
                 out.append(("gvc.props.c14", "ob_component", dict(D=D, sig=sig, batched=batched)))
+                if sig[0] == (0, 0) and len(sig) == 2:
+                    out.append(("gvc.props.c14", "ob_component_slice", dict(D=D, batched=batched)))
         out.append(("gvc.props.c14", "ob_to_images", dict(D=D)))
     return out
 
@@ -160,6 +162,53 @@ def ob_component(D, sig, batched):
                         return cmp_blocks(r, {(0, 0): spec}, D, True, [(0, 0)], "component (wrong numbering)")
                     obs.append(guard(f"C14/MultiImage.{fn}/D={D},sig={sig},type={key}/canary:component-major-numbering", "canary",
                                      lambda run_bad=run_bad, post_bad=post_bad, pre=pre: all_paths(pre + [zi(chans[key].ext) >= 2], run_bad, post_bad), structure))
+    return obs
+
+
+def ob_component_slice(D, batched):
+    """get_component / batch_get_component with a SLICE of components (channel counts concrete so that the slice bounds are,
+    everything else symbolic): output channel j*F + f is component start+j at future step f of the SAME batch entry"""
+    Gm = geom()
+    obs = []
+    old_enum = arr.ENUM_SMALL[0]
+    arr.ENUM_SMALL[0] = 4          # the selected-component digit is enumerated
+    sig = [(0, 0), (1, 0)] if D > 1 else [(0, 0), (0, 1)]
+    nch = {sig[0]: 2, sig[1]: 1}
+    comps = []           # global component number -> (type, channel, tensor component tuple)
+    for k in sig:
+        for c in range(nch[k]):
+            for u in itertools.product(range(D), repeat=k[0]):
+                comps.append((k, c, u))
+    for (a, b) in [(1, 3), (2, len(comps)), (0, len(comps)), (1, 2)]:
+        W = World(D)
+        Fst = Atom(sint("F", W.pre), "F")
+        lead = W.lead(1, "batch") if batched else []
+        blocks = {k: arr.source(f"X{k[0]}{k[1]}", lead + [arr.mkprod([Atom(nch[k]), Fst])] + W.spatial + [Atom(D) for _ in range(k[0])]) for k in sig}
+        structure = dict(D=D, sig=sig, channels=[nch[k] for k in sig], component=f"slice({a},{b})", batched=batched)
+
+        def run(a=a, b=b, blocks=blocks, Fst=Fst):
+            mi = Gm.MultiImage(dict(blocks), D, True)
+            return mi.batch_get_component(slice(a, b), Fst.ext) if batched else mi.get_component(slice(a, b), Fst.ext)
+
+        def post(r, a=a, b=b, blocks=blocks, Fst=Fst, lead=lead, W=W):
+            nl = len(lead)
+            sel = comps[a:b]
+
+            def elem(idx):
+                j, f = idx[nl]
+                if arr.is_z3(j):
+                    raise sym.OutOfReach("component digit must be concrete")
+                k, c, u = sel[int(j)]
+                return blocks[k].elem(list(idx[:nl]) + [(c, f)] + list(idx[nl + 1:]) + list(u))
+            spec = arr.SArray(lead + [arr.mkprod([Atom(len(sel)), Fst])] + W.spatial, elem)
+            return cmp_blocks(r, {(0, 0): spec}, D, True, [(0, 0)], "component slice")
+
+        fn = "batch_get_component" if batched else "get_component"
+        o = guard(f"C14/MultiImage.{fn}/D={D},component=slice({a},{b})/ensures:per-entry-component-selection", "ensures",
+                  lambda run=run, post=post, W=W: all_paths(W.pre, run, post), structure)
+        o["replay"] = dict(scenario="component_slice", model=o.get("model"), a=a, b=b, **structure)
+        obs.append(o)
+    arr.ENUM_SMALL[0] = old_enum
     return obs
 
 
